@@ -1,5 +1,6 @@
 """C09 - shuffling is a signed renaming of variables plus a reordering of clauses."""
 import itertools
+import os
 import random
 from collections import Counter
 
@@ -253,7 +254,7 @@ def strat_lib(draw):
             # the permutations that a range can express: identity and reversal
             seq = sorted(seq, reverse=draw(st.booleans()))
         if kind == 'invalid':
-            how = draw(st.sampled_from(['short', 'long', 'repeat', 'range', 'zero', 'shift']))
+            how = draw(st.sampled_from(['short', 'long', 'repeat', 'range', 'zero', 'shift', 'negative-alias', 'negative-alias', 'all-negative']))
             if how == 'short':
                 if not seq:
                     seq = [1]
@@ -267,6 +268,12 @@ def strat_lib(draw):
                 seq[0] = {'pf': 2, 'vp': size + 1, 'cp': size}[key]
             elif how == 'zero' and seq:
                 seq[0] = {'pf': 0, 'vp': 0, 'cp': -1}[key]
+            elif how == 'negative-alias' and seq and key != 'pf':
+                # an image replaced by the negative number that indexes the same slot of a table from the end
+                i = draw(st.integers(0, len(seq) - 1))
+                seq[i] = seq[i] - (size + 1 if key == 'vp' else size)
+            elif how == 'all-negative' and seq and key != 'pf':
+                seq = [x - (size + 1 if key == 'vp' else size) for x in seq]
             elif how == 'shift' and seq and key != 'pf':
                 seq = [x + (-1 if key == 'vp' else 1) for x in seq]
             else:
@@ -377,10 +384,30 @@ def run_pipe(case):
     text = ''.join(case['head']) + dimacs_text(F)
     args = ['--seed', str(case['seed'])] + case['flags']
     what = "cnfshuffle {} reading {!r} from a pipe".format(' '.join(args), text[:60])
-    r = cli.run_subprocess('cnfshuffle', args, stdin_text=text, hashseed=case['hashseed'])
-    if r.code != 0:
-        raise Violation("{}: exit status {} and {!r}".format(what, r.code, (r.out + r.err)[-300:]))
-    n2, m2, out, _ = parse_dimacs(r.out)
+    import tempfile
+    import shutil
+    d = tempfile.mkdtemp(prefix="c09p_")
+    try:
+        if case.get('out'):
+            args = args + ['-o', case['out']]
+            what += " writing to " + case['out']
+        r = cli.run_subprocess('cnfshuffle', args, stdin_text=text, hashseed=case['hashseed'], cwd=d)
+        if r.code != 0:
+            raise Violation("{}: exit status {} and {!r}".format(what, r.code, (r.out + r.err)[-300:]))
+        produced = r.out
+        if case.get('out'):
+            p = os.path.join(d, case['out'])
+            if not os.path.isfile(p):
+                raise Violation("{}: exit status 0 but the file was not written".format(what))
+            with open(p, encoding='utf-8', errors='replace') as fh:
+                produced = fh.read()
+            if r.out.strip():
+                raise Violation("{}: text on the standard output although -o was given".format(what))
+    finally:
+        shutil.rmtree(d, ignore_errors=True)
+    if not produced.lstrip().startswith(('c', 'p')):
+        raise Violation("{}: the output is not DIMACS: {!r}".format(what, produced[:120]))
+    n2, m2, out, _ = parse_dimacs(produced)
     if n2 is None:
         raise Violation("{}: the output is not DIMACS: {!r}".format(what, r.out[:200]))
     consequences(Fc, n, n2, out, what)
@@ -389,7 +416,8 @@ def run_pipe(case):
         raise Violation("{}: output is not a signed renaming + clause permutation of the input".format(what))
     if len(fixed) == 3 and out != Fc:
         raise Violation("{}: everything switched off but the clauses changed".format(what))
-    return Outcome(labels=['pipe', 'headerless' if not case['head'] else 'with-comments'], nontrivial=n >= 3 and len(Fc) >= 3)
+    return Outcome(labels=['pipe', 'headerless' if not case['head'] else 'with-comments'] + (['to-file'] if case.get('out') else []),
+                   nontrivial=n >= 3 and len(Fc) >= 3)
 
 
 def enum_pipe(tier):
@@ -405,11 +433,14 @@ def enum_pipe(tier):
                 if tier == 'quick' and i % 8 != 1:
                     continue
                 yield {'F': F, 'head': head, 'flags': fl, 'seed': i, 'hashseed': str(i % 3)}
+    # the shuffled formula is DIMACS whatever the name of the output file looks like
+    for k, out in enumerate(['shuffled.cnf', 'shuffled', 'shuffled.opb', 'shuffled.tex', 'shuffled.dimacs', 'shuffled.txt', 'out.gml']):
+        yield {'F': forms[k % 3], 'head': heads[k % 3], 'flags': flagsets[k % len(flagsets)], 'seed': k, 'hashseed': '0', 'out': out}
 
 
 SUBCHECKS = [
     SubCheck('library', run_lib, strategy=strat_lib, enumerate_cases=enum_lib, quick=3000, thorough=120000,
-             rule="CNFs with 0..8 variables, 0..10 clauses (duplicates, empty clauses, unused variables) x each of the three arguments in {'fixed','shuffle', explicit sequence given as list / tuple / range (identity, reversal) / array.array / UserList, explicit invalid (wrong length, repeated, out of range, 0/2 flips, shifted base)} x seeds; complete slice: every explicit (flips, permutation, clause permutation) on two small formulas; oracle: explicit => equals the documented mapping, invalid => ValueError, random => hook witness verified (or backtracking search), same variable/clause counts, width multiset and model count, inputs untouched, description keeps the original text; non-trivial: >=3 variables, >=3 distinct clauses, some component not fixed",
+             rule="CNFs with 0..8 variables, 0..10 clauses (duplicates, empty clauses, unused variables) x each of the three arguments in {'fixed','shuffle', explicit sequence given as list / tuple / range (identity, reversal) / array.array / UserList, explicit invalid (wrong length, repeated, out of range, 0/2 flips, shifted base, images replaced by the negative numbers that index the same table slot from the end)} x seeds; complete slice: every explicit (flips, permutation, clause permutation) on two small formulas; oracle: explicit => equals the documented mapping, invalid => ValueError, random => hook witness verified (or backtracking search), same variable/clause counts, width multiset and model count, inputs untouched, description keeps the original text; non-trivial: >=3 variables, >=3 distinct clauses, some component not fixed",
              required_labels=['pf:fixed', 'pf:shuffle', 'pf:explicit', 'vp:fixed', 'vp:shuffle', 'vp:explicit', 'cp:fixed',
                               'cp:shuffle', 'cp:explicit', 'invalid-rejected', 'hook-witness', 'searched-witness', 'reference',
                               'descending-range', 'as:array', 'as:UserList']),
@@ -417,6 +448,6 @@ SUBCHECKS = [
              rule="cnfshuffle (DIMACS on stdin, every subset of -p -v -c -q, --seed) and 'cnfgen <family> -T shuffle' with every subset of the three --no-* switches; oracle: witness verified, switched-off components are the identity, printed text equals the formula built under the same seed, all three off => clauses unchanged",
              required_labels=['cnfshuffle', 'cnfgen-T', 'all-off', 'hook-witness']),
     SubCheck('pipe', run_pipe, enumerate_cases=enum_pipe,
-             rule="the cnfshuffle tool as a real process with its input on a pipe: 4 formulas x {no comment before the problem line, one, two comment lines} x 6 switch sets (quick: every eighth); oracle: exit status 0, DIMACS output, same counts and clause multiset shape, a signed renaming + clause permutation exists (searched), everything off = identity; non-trivial: >=3 variables and >=3 clauses",
-             required_labels=['pipe', 'headerless', 'with-comments']),
+             rule="the cnfshuffle tool as a real process with its input on a pipe: 4 formulas x {no comment before the problem line, one, two comment lines} x 6 switch sets (quick: every eighth), and -o into files named .cnf / .opb / .tex / .dimacs / .txt / .gml / without extension; oracle: exit status 0, DIMACS output, same counts and clause multiset shape, a signed renaming + clause permutation exists (searched), everything off = identity; non-trivial: >=3 variables and >=3 clauses",
+             required_labels=['pipe', 'headerless', 'with-comments', 'to-file']),
 ]
